@@ -123,6 +123,17 @@ def dump_ctx(g):
     return ctx
 
 
+VIEW_OWNER = {
+    # which property a public getter that disagrees with the storage it reports belongs to
+    "getTicketPrice": "C17", "getLaunchpadTokensPerWinningTicket": "C17", "getNftCost": "C17", "getUnlockSchedule": "C17",
+    "getLaunchpadTokensLockPercentage": "C16", "getLaunchpadTokensUnlockEpoch": "C16",
+    "getNumberOfWinningTickets": "C03", "getNumberOfWinningTicketsForAddress": "C03", "getTotalNumberOfTickets": "C03",
+    "getLaunchStageFlags": "C06", "getConfiguration": "C06",
+    "getTotalLaunchpadTokensDeposited": "C02", "getLaunchpadTokenId": "C02",
+    "isPaused": "C19", "getSupportAddress": "C15",
+}
+
+
 def diff_D(impl, model):
     if not (impl.startswith("D ") and model.startswith("D ")):
         return ["dump-format"] if impl != model else []
@@ -138,6 +149,11 @@ def diff_D(impl, model):
                 for t in set(bi) | set(bm):
                     if bi.get(t) != bm.get(t):
                         out.append("bal." + tok_class(int(t), ctx))
+                continue
+            if k == "views":
+                for n in (gi.get(k, "ok") + "+" + gm.get(k, "ok")).split("+"):
+                    if n != "ok":
+                        out.append("views." + VIEW_OWNER.get(n, "C17"))
                 continue
             out.append(k)
     for a in sorted(set(ai) | set(am)):
